@@ -281,6 +281,29 @@ func init() {
 				}
 				add(c)
 			}
+			// value identity is 64 bits wide: values that agree in their low 32 bits (number parser: differing by a
+			// multiple of 2^32; -1 vs 4294967295) must keep separate posting lists, as include and as exclude
+			{
+				iv := func(z int64) TV { return tvInt("int64", z) }
+				in := func(f int, inc bool, zs ...int64) eExpr {
+					l := make([]TV, len(zs))
+					for i, z := range zs {
+						l[i] = iv(z)
+					}
+					return eExpr{F: f, Inc: inc, V: tvSlice("[]int64", l...)}
+				}
+				c := rCase{Fields: []rField{{F: 0, Cont: "default", Parser: "number"}, {F: 1, Cont: "default"}}}
+				c.Docs = []eDoc{
+					{ID: 1, Cons: []eConj{{in(0, true, 7)}}}, {ID: 2, Cons: []eConj{{in(0, true, 7+(1<<32))}}},
+					{ID: 3, Cons: []eConj{{in(0, false, 4294967295)}}}, {ID: 4, Cons: []eConj{{in(0, true, -1)}}},
+					{ID: 5, Cons: []eConj{{in(1, true, 7), in(0, false, 7+(1<<33))}}}, {ID: 6, Cons: []eConj{{in(1, true, 7+(1<<32), 1<<32)}}},
+				}
+				for i, z := range []int64{7, 7 + (1 << 32), 7 + (1 << 33), -1, 4294967295, 0, 1 << 32, -(1 << 32) + 7} {
+					c.Ops = append(c.Ops, rOp{S: 0, Op: "reset"}, rOp{S: 0, Op: []string{"retrieve", "docs"}[i%2], A: []eAssign{{F: 0, V: iv(z)}}}, rOp{S: 0, Op: "raw"},
+						rOp{S: 0, Op: "reset"}, rOp{S: 0, Op: "docs", A: []eAssign{{F: 1, V: iv(z)}, {F: 0, V: tvSlice("[]int64", iv(z), iv(7))}}})
+				}
+				add(c)
+			}
 			for i := 0; i < n; i++ {
 				nf := 1 + r.Intn(5)
 				if zeroFields && r.Chance(3) {
